@@ -1645,9 +1645,9 @@ def check_C07(ctx):
     import taint
     taint.check(ctx)
     # all-shapes statements: the functional theorems on the regenerated entry points conclude `callFun ... = .ok ...` in the instrumented semantics, so the monitor never fires
-    ok, stats = taint.regenerate(ctx, ('TJ.Props.C07Gen',))
+    ok, stats = taint.regenerate(ctx, ('TJ.Props.C07Gen', 'TJ.Props.NonVacuous'))
     if stats.get('errors'): ctx.broken_proofs.append('tools/c2lean.py cannot translate the current sources: ' + '; '.join(stats['errors'][:3]))
-    elif not ok: ctx.broken_proofs.append('TJ.Props.C07Gen (every shape of the AEAD, SIV, hash, HMAC, HKDF, PBKDF2 and PRNG entry points, one-shot and streaming, completes under the secrecy monitor) no longer checks: ' + re.sub(r'\s+', ' ', stats.get('build_log_tail', ''))[-600:])
+    elif not ok: ctx.broken_proofs.append('TJ.Props.C07Gen / NonVacuous (every shape of the AEAD, SIV, hash, HMAC, HKDF, PBKDF2 and PRNG entry points, one-shot and streaming, completes under the secrecy monitor) no longer checks: ' + re.sub(r'\s+', ' ', stats.get('build_log_tail', ''))[-600:])
     ctx.lean(extra_modules=['TJ.Props.C07Gen'])
     ctx.assume.append('constant-time claim for compiled code is an observation on the listed variants (valgrind memcheck with secrets undefined), not a proof')
 
